@@ -49,6 +49,7 @@ class State:
         self.handling = ()        # stack of ExcInfo being handled (for bare raise)
         self.init_assigned = None  # set of field names assigned (when verifying __init__)
         self.notes = ()
+        self.closed_arrays = ()   # (heap array term, field type, alloc bound): refs stored in it are < bound
 
     def copy(self):
         s = State.__new__(State)
@@ -66,6 +67,7 @@ class State:
         s.handling = self.handling
         s.init_assigned = None if self.init_assigned is None else set(self.init_assigned)
         s.notes = self.notes
+        s.closed_arrays = self.closed_arrays
         return s
 
     def assume(self, term):
